@@ -573,6 +573,33 @@ def addSubappOn (parentFrozen : Bool) (fuel : Nat) (t : Table) (pfx q : Str) (s 
 def addDomainOn (parentFrozen : Bool) (t : Table) (rule : Rule) (s : Table) : Except Err Table :=
   if parentFrozen then .error .runtime else .ok (addDomain t rule s)
 
+/-! ## class-based views -/
+
+/-- `View._raise_allowed_methods`: the standard methods (`hdrs.METH_ALL`) the class defines -/
+def viewAllowed (defined : List Str) : List Str := Gen.C14.methAll.filter (fun m => defined.contains m)
+
+/-- position of `m` in a list (the view's handler for `m` gets id `hid + 1 + position`) -/
+def idxOf (m : Str) : List Str → Nat
+  | [] => 0
+  | x :: xs => if x == m then 0 else idxOf m xs + 1
+
+/-- `View._iter` for a view registered with `add_view` (route method `*`) as handler `hid`;
+`defined` = the standard methods for which the class has a (lower-case) coroutine attribute.
+A method outside `hdrs.METH_ALL` is refused *before* any attribute lookup; an undefined one after. -/
+def viewDispatch (defined : List Str) (hid : Nat) (d : Dict) (m : Str) : Result :=
+  if !Gen.C14.methAll.contains m then .e405 (viewAllowed defined)
+  else if defined.contains m then .found (hid + 1 + idxOf m Gen.C14.methAll) d
+  else .e405 (viewAllowed defined)
+
+/-- what the client gets: the router's answer, and for a found class-based view the view's own -/
+def afterView (views : List (Nat × List Str)) (m : Str) (r : Result) : Result :=
+  match r with
+  | .found h d =>
+    match views.find? (fun v => v.1 == h) with
+    | some v => viewDispatch v.2 h d m
+    | none => r
+  | r => r
+
 /-! ## url_for -/
 
 /-- `self._formatter.format_map({k: _quote_path(v)})`; `vals` = (name, quoted value) -/
